@@ -48,10 +48,10 @@ struct RbHarness {
 	Node &node(int i) { return reinterpret_cast<Node *>(w.nodes)[i]; }
 
 	void reset() {
-		memset(&w, 0, sizeof w);
-		if constexpr(std::is_same_v<T, DTree>) new(w.tree) T(DirLess{1}); else new(w.tree) T();
+		memset(&w, 0xA5, sizeof w);   // nodes and trees are built in storage that is not all-zero, and default-initialised
+		if constexpr(std::is_same_v<T, DTree>) new(w.tree) T(DirLess{1}); else new(w.tree) T;
 		for(int i = 0; i < n; i++) {
-			Node *p = new(&node(i)) Node();
+			Node *p = new(&node(i)) Node;
 			p->key = keys[i];
 			p->id = i;
 		}
